@@ -103,3 +103,17 @@ class Funnel:
 def fitness_of(c):
     """the documented function of the reported cost"""
     return 1 / (c + 1) if c >= 0 else 1 + abs(c)
+
+
+def low_precision_cases():
+    """concrete candidates made of numpy scalars of lower precision (float32 / float16) beyond bounds that are not
+    representable in that precision, for the real _init_agent / Task.solve / _fcn: np.clip works in the scalar's own
+    precision, so the rounded bound can land outside the declared domain.
+    yields (label, decls, optimizer, task, candidate)"""
+    for lo, hi in ((0.0, 0.1), (-0.3, 1 / 3)):
+        for mk in (np.float32, np.float16):
+            for raw in ([5.0, 7.0], [-5.0, 0.7], [0.05, 1.2]):
+                vs = [M.ContinuousVariable(name="c", lower_bound=lo, upper_bound=hi),
+                      M.DiscreteVariable(name="d", choices=["a", "b", "c"])]
+                task = make_task(vs, lambda x, i: 1.5)
+                yield f"{mk.__name__}{raw}@[{lo},{hi}]", leaf_decls(vs), make_optimizer("base", task), task, [mk(r) for r in raw]
